@@ -439,3 +439,32 @@ M("C02", "stray-front-write", "operators.py", "        if len(pareto_front[front
 # twins
 M("C02", "twin-no-none-test", "operators.py", "if q.features['domination_counter'] == 0 and q.features['front_number'] is None:", "if q.features['domination_counter'] == 0:", "H")
 M("C02", "twin-range-outer", "operators.py", "        for i, p in enumerate(individuals):\n            for j in range(i + 1, len(individuals)):", "        for i in range(len(individuals)):\n            p = individuals[i]\n            for j in range(i + 1, len(individuals)):", "H")
+
+# ---------------------------------------------------------------- C09
+M("C09", "nsga-range-G", "algorithm_NSGAII.py", "for it in range(self.options['max_population_number']-1):", "for it in range(self.options['max_population_number']):")
+M("C09", "nsga-tag-plus1", "algorithm_NSGAII.py", "individual.population_id = it + 2", "individual.population_id = it + 1")
+M("C09", "nsga-initial-tag-0", "algorithm_NSGAII.py", "            individual.population_id = 1\n", "            individual.population_id = 0\n")
+M("C09", "nsga-copies-before-eval", "algorithm_NSGAII.py", "            self.evaluate(offsprings)\n\n            for individual in individuals:\n                offsprings.append(individual.copy())\n", "            for individual in individuals:\n                offsprings.append(individual.copy())\n\n            self.evaluate(offsprings)\n")
+M("C09", "nsga-truncate-size", "algorithm_NSGAII.py", "individuals = nondominated_truncate(offsprings, self.options['max_population_size'])", "individuals = nondominated_truncate(offsprings, self.options['max_population_size'] + 1)")
+M("C09", "nsga-no-parents-in-pool", "algorithm_NSGAII.py", "            for individual in individuals:\n                offsprings.append(individual.copy())\n", "")
+M("C09", "nsga-copy-without-costs", "algorithm_NSGAII.py", "        new_individual.costs = self.costs\n        new_individual.costs_signed = self.costs_signed\n", "        new_individual.costs = self.costs\n")
+M("C09", "nsga-truncate-before-sort", "algorithm_NSGAII.py", "            self.selector.fast_nondominated_sorting(offsprings)\n\n            # truncate\n            # ToDO: Deside if we want to save removed individuals\n            # individuals, removed = nondominated_truncate(offsprings, self.options['max_population_size'])\n            individuals = nondominated_truncate(offsprings, self.options['max_population_size'])\n", "            individuals = nondominated_truncate(offsprings, self.options['max_population_size'])\n            self.selector.fast_nondominated_sorting(offsprings)\n")
+M("C09", "nsga-double-evaluate", "algorithm_NSGAII.py", "            self.evaluate(offsprings)\n\n            for individual in individuals:", "            self.evaluate(offsprings)\n            self.evaluate(individuals)\n\n            for individual in individuals:")
+M("C09", "nsga-generator-half", "algorithm_NSGAII.py", "            self.generator.init(self.options['max_population_size'])\n        self.crossover", "            self.generator.init(self.options['max_population_size'] // 2)\n        self.crossover")
+M("C09", "nsga-record-offsprings", "algorithm_NSGAII.py", "            individuals = nondominated_truncate(offsprings, self.options['max_population_size'])\n            for individual in individuals:\n", "            individuals = nondominated_truncate(offsprings, self.options['max_population_size'])\n            for individual in offsprings:\n")
+M("C09", "generate-no-cap", "algorithm_genetic.py", "            elif len(offsprings) < self.options['max_population_size']:\n                offsprings.append(child2)", "            else:\n                offsprings.append(child2)")
+M("C09", "generate-loop-le", "algorithm_genetic.py", "while len(offsprings) < self.options['max_population_size']:", "while len(offsprings) <= self.options['max_population_size']:")
+M("C09", "generate-for-children", "algorithm_genetic.py", "            # always create new individual\n            if len(offsprings) == 0:\n                offsprings.append(child1)\n\n            if any(child1 == offspring for offspring in offsprings) and (len(offsprings) < self.options[\n                'max_population_size']):\n                pass\n            else:\n                offsprings.append(child1)\n\n            if any(child2 == offspring for offspring in offsprings) and (len(offsprings) < self.options[\n                'max_population_size']):\n                pass\n            elif len(offsprings) < self.options['max_population_size']:\n                offsprings.append(child2)\n",
+  "            for child in (child1, child2):\n                if not any(child == offspring for offspring in offsprings):\n                    offsprings.append(child)\n")
+M("C09", "epsmoea-tag-it", "algorithm_genetic.py", "                individual.population_id = it + 1\n", "                individual.population_id = it\n")
+M("C09", "epsmoea-range-minus1", "algorithm_genetic.py", "for it in range(self.options['max_population_number']):", "for it in range(self.options['max_population_number'] - 1):")
+M("C09", "omopso-while-le", "algorithm_swarm.py", "        it = 0\n        while it < self.options['max_population_number']:\n            offsprings = self.selector.select(individuals)\n\n            self.update_velocity(offsprings)\n            self.update_position(offsprings)\n            self.turbulence(offsprings, it)\n\n            self.evaluate(offsprings)\n\n            self.update_particle_best(offsprings)\n            self.update_global_best(offsprings)\n\n            # update individuals\n            individuals = offsprings\n\n            for individual in individuals:\n                # add to population\n                individual.population_id = it + 1\n                # append to problem\n                self.problem.individuals.append(individual)\n                # sync to datastore\n                self.problem.data_store.sync_individual(individual)\n\n            it += 1\n\n        t = time.time() - t_s\n        self.problem.logger.info(\"PSO: elapsed time: {} s\".format(t))\n\n        # sync changed individual informations\n        self.problem.data_store.sync_all()\n\n\nclass SMPSO",
+  "        it = 0\n        while it <= self.options['max_population_number']:\n            offsprings = self.selector.select(individuals)\n\n            self.update_velocity(offsprings)\n            self.update_position(offsprings)\n            self.turbulence(offsprings, it)\n\n            self.evaluate(offsprings)\n\n            self.update_particle_best(offsprings)\n            self.update_global_best(offsprings)\n\n            individuals = offsprings\n\n            for individual in individuals:\n                individual.population_id = it + 1\n                self.problem.individuals.append(individual)\n                self.problem.data_store.sync_individual(individual)\n\n            it += 1\n\n        t = time.time() - t_s\n        self.problem.data_store.sync_all()\n\n\nclass SMPSO")
+M("C09", "copy-selector-skips", "operators.py", "        for individual in individuals:\n            candidate = individual.copy()\n            candidate.features = deepcopy(individual.features)\n            selection.append(candidate)", "        for individual in individuals:\n            candidate = individual.copy()\n            candidate.features = deepcopy(individual.features)\n            if candidate not in selection:\n                selection.append(candidate)")
+M("C09", "acceptance-evicts-any", "operators.py", "            del individuals[random.choice(dominates)]\n            individuals.append(individual)", "            del individuals[random.randrange(len(individuals))]\n            individuals.append(individual)")
+M("C09", "acceptance-grows", "operators.py", "        elif not dominated:\n            individuals.remove(random.choice(individuals))\n            individuals.append(individual)", "        elif not dominated:\n            individuals.append(individual)")
+M("C09", "acceptance-accepts-dominated", "operators.py", "        elif not dominated:\n            individuals.remove(random.choice(individuals))", "        else:\n            individuals.remove(random.choice(individuals))")
+M("C09", "acceptance-flags-crossed", "operators.py", "            if flag == 1:\n                dominates.append(i)\n            elif flag == 2:\n                dominated = True", "            if flag == 2:\n                dominates.append(i)\n            elif flag == 1:\n                dominated = True")
+# twins
+M("C09", "twin-omopso-for", "algorithm_swarm.py", "        it = 0\n        while it < self.options['max_population_number']:\n            offsprings = self.selector.select(individuals)\n\n            self.update_velocity(offsprings)\n            self.update_position(offsprings)\n            self.turbulence(offsprings, it)\n\n            self.evaluate(offsprings)\n\n            self.update_particle_best(offsprings)\n            self.update_global_best(offsprings)\n\n            # update individuals\n            individuals = offsprings\n\n            for individual in individuals:\n                # add to population\n                individual.population_id = it + 1\n                # append to problem\n                self.problem.individuals.append(individual)\n                # sync to datastore\n                self.problem.data_store.sync_individual(individual)\n\n            it += 1\n\n        t = time.time() - t_s\n        self.problem.logger.info(\"PSO: elapsed time: {} s\".format(t))\n\n        # sync changed individual informations\n        self.problem.data_store.sync_all()\n\n\nclass SMPSO",
+  "        for it in range(self.options['max_population_number']):\n            offsprings = self.selector.select(individuals)\n\n            self.update_velocity(offsprings)\n            self.update_position(offsprings)\n            self.turbulence(offsprings, it)\n\n            self.evaluate(offsprings)\n\n            self.update_particle_best(offsprings)\n            self.update_global_best(offsprings)\n\n            individuals = offsprings\n\n            for individual in individuals:\n                individual.population_id = it + 1\n                self.problem.individuals.append(individual)\n                self.problem.data_store.sync_individual(individual)\n\n        t = time.time() - t_s\n        self.problem.data_store.sync_all()\n\n\nclass SMPSO", "H")
